@@ -165,6 +165,13 @@ class StoreRun:
         self.kept = {}  # ki -> a superseded one it holds as well
         if self.kind == "fs":
             rm(root)
+            if os.path.lexists(root):
+                # (the tree of the previous history could not be removed completely: continue in a directory of its own)
+                n = 0
+                while os.path.lexists("%s.%d" % (root, n)):
+                    n += 1
+                root = "%s.%d" % (root, n)
+                self.root = root
             os.makedirs(root)
             own_uuids()
             self.dpath = os.path.join(root, "d")
